@@ -44,6 +44,24 @@ def run(ctx):
         one(ctx, rng, xr, model, dmod, disp, direct)
 
 
+def sibling(rng, ds):
+    sib = ds.copy(deep=True)
+    for name in list(sib.variables):
+        v = sib[name]
+        if v.ndim == 1 and v.dtype.kind == "f" and v.size >= 3:
+            a = np.array(v.values, dtype="float64")
+            d = np.diff(a)
+            if np.all(d > 0) or np.all(d < 0):
+                a[1:-1] += 0.3 * np.abs(d).min() * rng.uniform(-1, 1, a.size - 2)
+                if name in sib.coords and name in sib.dims:
+                    sib = sib.assign_coords({name: a.astype(v.dtype)})
+                else:
+                    sib[name] = (v.dims, a.astype(v.dtype), dict(v.attrs))
+        elif v.dtype.kind == "f" and v.ndim >= 2:
+            sib[name] = (v.dims, (v.values * rng.uniform(0.2, 3.0)).astype(v.dtype), dict(v.attrs))
+    return sib
+
+
 def one(ctx, rng, xr, model, dmod, disp, direct):
     rec = ctx.rec
     via = "read_dataset" if rng.random() < 0.6 else "from_" + model
@@ -68,6 +86,16 @@ def one(ctx, rng, xr, model, dmod, disp, direct):
     if model == "ndbc":
         kw = {"directional": bool(rng.random() < 0.75), "dd": float(rng.choice([10.0, 5.0, 20.0, 45.0]))}
         key += "|directional=%s" % kw["directional"]
+    if rng.random() < 0.3:
+        # history: a sibling dataset of the same model and shape - same first/last value of every monotonic
+        # 1-D float axis, other interior values, other data - is converted first (caches keyed on too little)
+        sib = sibling(rng, ds)
+        try:
+            dmod.read_dataset(sib, **kw) if via == "read_dataset" else direct[model](sib, **kw)
+        except Exception:
+            pass
+        key += "|after-sibling"
+        rec.ok("history", "%s|%s" % (model, via))
     disp.take()
     try:
         out = dmod.read_dataset(ds, **kw) if via == "read_dataset" else direct[model](ds, **kw)
